@@ -7,7 +7,7 @@ From WP Require Import Spec.Cbor Spec.Bundle.
 From WP Require Import Proofs.BaseLemmas Proofs.CborHead Proofs.CborMap Proofs.CborDecode Proofs.CborUtf8
   Proofs.Variants Proofs.BundleWriteBasics Proofs.BundleWriteSpec Proofs.BundleWriteSig
   Proofs.BundleWriteForm Proofs.BundleWriteWF Proofs.BundleWriteCases Proofs.BundleRoundtripRows
-  Proofs.BundleRoundtripResp Proofs.BundleRoundtripMeta Proofs.BundleRoundtripRead
+  Proofs.BundleRoundtripResp Proofs.BundleWriteOk Proofs.BundleRoundtripMeta Proofs.BundleRoundtripRead
   Proofs.BundleRoundtripSig Proofs.BundleRoundtrip.
 Open Scope N_scope.
 
@@ -72,11 +72,11 @@ Section Final.
     rewrite E, !lenN_app. unfold bytes in *. lia.
   Qed.
 
-  Lemma writable_sig_rt (b : bundle) (bs : bytes) :
-    writable x509_ok b = true -> b_write b = Ok bs -> lenN bs < two63 -> sig_rt x509_ok b.
+  Lemma written_sig_rt (b : bundle) (bs : bytes) :
+    residual x509_ok b = true -> b_write b = Ok bs -> lenN bs < two63 -> sig_rt x509_ok b.
   Proof.
-    intros W Hw L. destruct (writable_parts x509_ok b W) as [_ [_ [_ [_ Hs]]]].
-    apply b_write_ok_iff in Hw. destruct Hw as [ts [_ [_ [_ [_ E]]]]].
+    intros W Hw L. destruct (written_parts x509_ok b bs Hw W) as [_ [_ [_ Hs]]].
+    apply b_write_ok_iff in Hw. destruct Hw as [ts [_ [_ [_ [_ [_ E]]]]]].
     unfold sig_rt. destruct (b_sigs b) as [s|] eqn:Sb; [|exact I].
     destruct (signatures_section_total s) as [sb Es].
     assert (Esb : sig_bytes_of b = sb) by (unfold sig_bytes_of; rewrite Sb, Es; reflexivity).
@@ -93,12 +93,15 @@ Section Final.
     - apply Forall_forall. intros v Hv. rewrite forallb_forall in H2. specialize (H2 v Hv). lia.
   Qed.
 
+  (* C03: what the writer accepted reads back as norm b; the only premises besides
+     the successful write are the Go slice bound and the residue the writer does
+     not check (see residual in Proofs/BundleRoundtrip.v) *)
   Theorem bundle_roundtrip (b : bundle) (bs : bytes) :
-    writable x509_ok b = true -> b_write b = Ok bs -> lenN bs < two63 ->
+    b_write b = Ok bs -> lenN bs < two63 -> residual x509_ok b = true ->
     b_read x509_ok bs = Ok (norm b).
   Proof.
-    intros W Hw L. apply bundle_roundtrip_gen; try assumption.
-    eapply writable_sig_rt; eassumption.
+    intros Hw L W. apply bundle_roundtrip_gen; try assumption.
+    eapply written_sig_rt; eassumption.
   Qed.
 
   (* ---- bundles in which every URL occurs once -------------------------------------------------------- *)
@@ -136,10 +139,10 @@ Section Final.
   Definition urls_utf8 (b : bundle) : Prop :=
     Forall (fun x => utf8_valid (bx_url x) = true) (b_exchanges b).
 
-  Lemma writable_urls_utf8 (b : bundle) : writable x509_ok b = true -> urls_utf8 b.
+  Lemma written_urls_utf8 (b : bundle) (bs : bytes) : b_write b = Ok bs -> urls_utf8 b.
   Proof.
-    intros W. destruct (writable_parts x509_ok b W) as [_ [X _]]. unfold xs_ok in X.
-    eapply Forall_impl; [|exact X]. intros x [_ U]. apply url_okb_spec in U. apply U.
+    intros Hw. destruct (b_write_ok_urls b bs Hw) as [X _]. unfold urls_utf8.
+    eapply Forall_impl; [|exact X]. intros x [_ U]. exact U.
   Qed.
 
   (* with one exchange per URL the reader returns the exchanges sorted by encoded
@@ -166,14 +169,14 @@ Section Final.
   Qed.
 
   Theorem bundle_roundtrip_single (b : bundle) (bs : bytes) :
-    writable x509_ok b = true -> single_urls b -> b_write b = Ok bs -> lenN bs < two63 ->
+    b_write b = Ok bs -> lenN bs < two63 -> residual x509_ok b = true -> single_urls b ->
     exists b', b_read x509_ok bs = Ok b' /\
       b_ver b' = b_ver b /\ b_primary b' = b_primary b /\ b_manifest b' = b_manifest b /\
       b_sigs b' = b_sigs b /\ b_taint b' = false /\
       b_exchanges b' = map xnorm (isort x_ltb (b_exchanges b)).
   Proof.
-    intros W ND Hw L. exists (norm b). split; [apply bundle_roundtrip; assumption|].
-    repeat split. apply norm_single; [exact ND|apply writable_urls_utf8; exact W].
+    intros Hw L W ND. exists (norm b). split; [apply bundle_roundtrip; assumption|].
+    repeat split. apply norm_single; [exact ND|eapply written_urls_utf8; exact Hw].
   Qed.
 
   (* ---- b1 variant sets: what the rows are -------------------------------------------------------------- *)
@@ -188,7 +191,7 @@ Section Final.
       Forall2 (fun g r => g_row hv_variants hv_vkey (b_ver b) g = Ok r)
               (g_groups bx_url (b_exchanges b)) rows.
   Proof.
-    intros Hw. apply b_write_ok_iff in Hw. destruct Hw as [ts [_ [Ht _]]].
+    intros Hw. apply b_write_ok_iff in Hw. destruct Hw as [ts [_ [_ [Ht _]]]].
     destruct (rows_of_pairs b ts Ht) as [tz [Etz [_ Exr]]].
     unfold xrows in Exr.
     destruct (g_rows hv_variants hv_vkey (b_ver b) (g_groups bx_url (b_exchanges b))) as [rows| | |] eqn:Er.
@@ -224,6 +227,7 @@ Section Final.
     b_write b = Err.
   Proof.
     intros V Hh U Hg Hl He. rewrite b_write_eq. unfold b_write_nf. rewrite Hh. cbn [chk bind].
+    destruct (urls_ok b); cbn [chk bind]; [|reflexivity].
     assert (Hne : es <> []) by (intros ->; cbn in Hl; lia).
     assert (Ebad : index_entry_pre (b_ver b) (u, es) = Err).
     { apply index_entry_pre_err_iff; [exact Hne|]. right. split; [exact V|]. split; [eapply group_url_utf8; eassumption|].
@@ -290,5 +294,39 @@ Section Final.
     intros [u es] r Hg Hr. cbn [snd]. apply (g_row_perm _ _ _ _ _ _ Hr).
     apply Forall_forall. intros x Hx. unfold single_keys in S. rewrite Forall_forall in S. apply S.
     apply (g_groups_members bx_url (b_exchanges b) (u, es) x Hg Hx).
+  Qed.
+
+  (* ---- the residue survives normalisation ----------------------------------------------------------- *)
+  (* every exchange of norm b is xnorm of an exchange of b *)
+  Lemma norm_members (b : bundle) (y : bexchange) :
+    In y (b_exchanges (norm b)) -> exists x, In x (b_exchanges b) /\ y = xnorm x.
+  Proof.
+    unfold norm. cbn [b_exchanges]. intros Hy. apply in_flat_map in Hy. destruct Hy as [r [Hr Hy]].
+    apply in_map_iff in Hy. destruct Hy as [x [E Hx]]. exists x. split; [|symmetry; exact E].
+    apply (Permutation_in _ (isort_perm row_ltb _)) in Hr. unfold xrows in Hr.
+    destruct (g_rows hv_variants hv_vkey (b_ver b) (g_groups bx_url (b_exchanges b))) as [rows| | |] eqn:Er;
+      try contradiction.
+    pose proof (g_rows_ok _ _ _ _ _ Er) as F2.
+    assert (Hall : Forall (fun r => exists g, In g (g_groups bx_url (b_exchanges b))
+                                   /\ g_row hv_variants hv_vkey (b_ver b) g = Ok r) rows).
+    { eapply Forall2_In_right; [exact F2|]. intros g r' Hg Hr'. exists g. auto. }
+    rewrite Forall_forall in Hall. destruct (Hall r Hr) as [[u es] [Hg Hrow]].
+    pose proof (g_row_incl _ _ _ _ _ _ Hrow x Hx) as Hes.
+    apply (g_groups_members bx_url (b_exchanges b) (u, es) x Hg Hes).
+  Qed.
+
+  Theorem residual_norm (b : bundle) : residual x509_ok b = true -> residual x509_ok (norm b) = true.
+  Proof.
+    unfold residual. cbn [norm b_sigs]. intros H.
+    apply andb_true_iff in H. destruct H as [H1 H3].
+    rewrite H3, !andb_true_r. apply negb_true_iff in H1. apply negb_true_iff.
+    unfold b_write_taint in *. cbn [norm b_ver b_primary b_manifest] in *.
+    apply orb_false_iff in H1. destruct H1 as [H1 Tm]. apply orb_false_iff in H1. destruct H1 as [Tx Tp].
+    rewrite Tm, Tp, !orb_false_r. fold (b_exchanges (norm b)).
+    apply not_true_is_false. intros T. apply existsb_exists in T. destruct T as [y [Hy Sy]].
+    apply norm_members in Hy. destruct Hy as [x [Hx ->]]. cbn [xnorm bx_url] in Sy.
+    assert (E : existsb (fun x => snd (index_url_ok (bx_url x))) (b_exchanges b) = true).
+    { apply existsb_exists. exists x. split; assumption. }
+    congruence.
   Qed.
 End Final.
